@@ -133,89 +133,96 @@ ExpF(tree, row) == FEval(tree, RowEnv(row))
 ExpKnown(col, row) == RowRec(row)[col]
 
 \* ---- (B) the relation between a case's input and its recorded output ----------------------------
+\* Everything the relation needs to know about the rows, computed once per case (TLC evaluates
+\* function constructors lazily; the recursive builders give real tuples):
+\*   rows = the rows present after step 3, n = the number of rows before it,
+\*   recs[r] = the record of row r (a, b and the known-good columns), f[r] = the meaning of the tree,
+\*   fix[r] = the meaning of the repaired X
+RECURSIVE RecsOf(_, _), EvalAll(_, _, _)
+RecsOf(rows, i) == IF i > Len(rows) THEN <<>> ELSE <<RowRec(rows[i])>> \o RecsOf(rows, i + 1)
+EvalAll(tree, recs, i) ==
+  IF i > Len(recs) THEN <<>> ELSE <<FEval(tree, [rec |-> VObj(recs[i])])>> \o EvalAll(tree, recs, i + 1)
+HasTree(inp) == inp.tree # NoTree
+Expect(inp, added) ==
+  LET rows == IF added THEN Append(inp.rows, inp.newrow) ELSE inp.rows
+      recs == RecsOf(rows, 1)
+  IN [rows |-> rows, n |-> Len(inp.rows), m |-> Len(rows), recs |-> recs,
+      f |-> IF HasTree(inp) THEN EvalAll(inp.tree, recs, 1) ELSE <<>>,
+      fix |-> EvalAll(FixTree, recs, 1)]
+
 ValOk(exp, got) == Tag(exp) = "undef" \/ exp = got
 IsErr(v) == Tag(v) = "err"
-ColOk(cells, rows, Exp(_)) ==
-  /\ Len(cells) = Len(rows)
-  /\ \A r \in 1..Len(rows) : ValOk(Exp(rows[r]), cells[r])
-
-RowsAfterAdd(inp, out) == IF out.add_ok THEN Append(inp.rows, inp.newrow) ELSE inp.rows
-HasTree(inp) == inp.tree # NoTree
+ColIs(cells, exp, n) == Len(cells) = n /\ \A r \in 1..n : ValOk(exp[r], cells[r])
 
 \* C19.meaning: the cell of F is the meaning of the tree, in every row
-Meaning(inp, out) ==
-  ~HasTree(inp) \/ (out.f_ok /\ ColOk(out.s1.F, inp.rows, LAMBDA row : ExpF(inp.tree, row)))
+Meaning(inp, out, E) == ~HasTree(inp) \/ (out.f_ok /\ ColIs(out.s1.F, E.f, E.n))
 \* the same question asked of Python's own result: is the specification / the renderer right?
-PyAgrees(inp, out) ==
-  ~HasTree(inp) \/ ColOk(out.py, inp.rows, LAMBDA row : ExpF(inp.tree, row))
+PyAgrees(inp, out) == ~HasTree(inp) \/ LET E == Expect(inp, FALSE) IN ColIs(out.py, E.f, E.n)
 
 \* C19.ok: the bundle that sets X's formula succeeds - or it is rejected and nothing changed
 BundleOk(inp, out) == out.x_ok \/ (out.same /\ out.s2 = out.s1)
 
 \* C19.others: G, H, K (and F) keep their correct values in every later snapshot
-KnownOk(s, rows) == \A i \in 1..Len(Known) : ColOk(s[Known[i].col], rows, LAMBDA row : ExpKnown(Known[i].col, row))
-FKept(inp, out, s, rows) ==
-  /\ Len(s.F) = Len(rows)
-  /\ \A r \in 1..Len(rows) :
-       IF r <= Len(out.s1.F) THEN s.F[r] = out.s1.F[r]                       \* an old row: unchanged
-       ELSE ~(HasTree(inp) /\ out.f_ok) \/ ValOk(ExpF(inp.tree, rows[r]), s.F[r])   \* the added row
-Others(inp, out) ==
-  LET later == RowsAfterAdd(inp, out) IN
-  /\ KnownOk(out.s1, inp.rows) /\ KnownOk(out.s2, inp.rows)
-  /\ KnownOk(out.s3, later) /\ KnownOk(out.s4, later)
-  /\ FKept(inp, out, out.s2, inp.rows) /\ FKept(inp, out, out.s3, later) /\ FKept(inp, out, out.s4, later)
+KnownOk(s, E, n) ==
+  \A i \in 1..Len(Known) : LET c == Known[i].col IN
+    Len(s[c]) = n /\ \A r \in 1..n : ValOk(E.recs[r][c], s[c][r])
+FKept(inp, out, s, E, n) ==
+  /\ Len(s.F) = n
+  /\ \A r \in 1..n :
+       IF r <= Len(out.s1.F) THEN s.F[r] = out.s1.F[r]                   \* an old row: unchanged
+       ELSE ~(HasTree(inp) /\ out.f_ok) \/ ValOk(E.f[r], s.F[r])         \* the added row
+Others(inp, out, E) ==
+  /\ KnownOk(out.s1, E, E.n) /\ KnownOk(out.s2, E, E.n) /\ KnownOk(out.s3, E, E.m) /\ KnownOk(out.s4, E, E.m)
+  /\ FKept(inp, out, out.s2, E, E.n) /\ FKept(inp, out, out.s3, E, E.m) /\ FKept(inp, out, out.s4, E, E.m)
 
 \* C19.loc: error cells occur only in X, in R (which reads X), or in F where the error is its value
 ErrFree(cells) == \A r \in 1..Len(cells) : ~IsErr(cells[r])
-FErrOk(inp, out, s) ==
+FErrOk(inp, out, s, E) ==
   \A r \in 1..Len(s.F) :
     IsErr(s.F[r]) => IF r <= Len(out.s1.F) THEN IsErr(out.s1.F[r])
-                     ELSE HasTree(inp) /\ r <= Len(inp.rows) + 1 /\ Stop(ExpF(inp.tree, inp.newrow))
-LocIn(inp, out, s) == (\A i \in 1..Len(Known) : ErrFree(s[Known[i].col])) /\ FErrOk(inp, out, s)
-Loc(inp, out) ==
+                     ELSE HasTree(inp) /\ r <= E.m /\ Stop(E.f[r])
+LocIn(inp, out, s, E) == (\A i \in 1..Len(Known) : ErrFree(s[Known[i].col])) /\ FErrOk(inp, out, s, E)
+Loc(inp, out, E) ==
   /\ out.elsewhere = 0
-  /\ LocIn(inp, out, out.s2) /\ LocIn(inp, out, out.s3) /\ LocIn(inp, out, out.s4)
+  /\ LocIn(inp, out, out.s2, E) /\ LocIn(inp, out, out.s3, E) /\ LocIn(inp, out, out.s4, E)
 
 \* C19.usable: a following AddRecord works and computes the new row; the formula can be repaired
-Usable(inp, out) ==
-  LET later == RowsAfterAdd(inp, out) IN
+Usable(inp, out, E) ==
   /\ out.add_ok
-  /\ Len(out.s3.G) = Len(inp.rows) + 1
+  /\ E.m = E.n + 1
   /\ \A i \in 1..Len(Known) : LET c == Known[i].col IN
-       Len(out.s3[c]) = Len(later) /\ ValOk(ExpKnown(c, inp.newrow), out.s3[c][Len(later)])
+       Len(out.s3[c]) = E.m /\ ValOk(E.recs[E.m][c], out.s3[c][E.m])
   /\ out.fix_ok
-  /\ ColOk(out.s4.X, later, LAMBDA row : ExpF(FixTree, row))
-  /\ ColOk(out.s4.R, later, LAMBDA row : ExpF(FixTree, row))
+  /\ ColIs(out.s4.X, E.fix, E.m)
+  /\ ColIs(out.s4.R, E.fix, E.m)
 
 FClauses(inp, out) ==
-  (IF Meaning(inp, out) THEN {} ELSE {"C19.meaning"})
+  LET E == Expect(inp, out.add_ok) IN
+  (IF Meaning(inp, out, E) THEN {} ELSE {"C19.meaning"})
   \cup (IF BundleOk(inp, out) THEN {} ELSE {"C19.ok"})
-  \cup (IF Others(inp, out) THEN {} ELSE {"C19.others"})
-  \cup (IF Loc(inp, out) THEN {} ELSE {"C19.loc"})
-  \cup (IF Usable(inp, out) THEN {} ELSE {"C19.usable"})
+  \cup (IF Others(inp, out, E) THEN {} ELSE {"C19.others"})
+  \cup (IF Loc(inp, out, E) THEN {} ELSE {"C19.loc"})
+  \cup (IF Usable(inp, out, E) THEN {} ELSE {"C19.usable"})
 FOk(inp, out) == FClauses(inp, out) = {}
 
 \* ---- reference outcome (non-vacuity: the relation is satisfiable on every input) -----------------
-\* xs = what X holds per row after step 2 (any values: no oracle for X); accepted = the bundle of step 2
-Snap(tree, rows, xs) ==
-  [F |-> [r \in 1..Len(rows) |-> ExpF(tree, rows[r])],
-   G |-> [r \in 1..Len(rows) |-> ExpKnown("G", rows[r])],
-   H |-> [r \in 1..Len(rows) |-> ExpKnown("H", rows[r])],
-   K |-> [r \in 1..Len(rows) |-> ExpKnown("K", rows[r])],
+\* xs = what X holds per row (any values: no oracle for X); accepted = the bundle of step 2
+Column(E, c, n) == [r \in 1..n |-> E.recs[r][c]]
+Snap(E, n, xs) ==
+  [F |-> SubSeq(E.f, 1, n), G |-> Column(E, "G", n), H |-> Column(E, "H", n), K |-> Column(E, "K", n),
    X |-> xs, R |-> xs]
-Const1(rows) == [r \in 1..Len(rows) |-> VInt(1)]
-AllErr(rows) == [r \in 1..Len(rows) |-> Err]
+Fill(n, v) == [r \in 1..n |-> v]
 Ref(inp, accepted) ==
-  LET later == Append(inp.rows, inp.newrow)
-      s1 == Snap(inp.tree, inp.rows, Const1(inp.rows))
+  LET E == Expect(inp, TRUE)
+      s1 == Snap(E, E.n, Fill(E.n, VInt(1)))
   IN [f_ok |-> TRUE, f_exc |-> "", s1 |-> s1,
       py |-> s1.F,
       x_ok |-> accepted, x_exc |-> IF accepted THEN "" ELSE "SyntaxError", same |-> ~accepted,
-      s2 |-> IF accepted THEN Snap(inp.tree, inp.rows, AllErr(inp.rows)) ELSE s1,
+      s2 |-> IF accepted THEN Snap(E, E.n, Fill(E.n, Err)) ELSE s1,
       add_ok |-> TRUE, add_exc |-> "",
-      s3 |-> Snap(inp.tree, later, IF accepted THEN AllErr(later) ELSE Const1(later)),
+      s3 |-> Snap(E, E.m, Fill(E.m, IF accepted THEN Err ELSE VInt(1))),
       fix_ok |-> TRUE, fix_exc |-> "",
-      s4 |-> Snap(inp.tree, later, [r \in 1..Len(later) |-> ExpF(FixTree, later[r])]),
+      s4 |-> Snap(E, E.m, E.fix),
       elsewhere |-> 0]
 
 \* values of the bounded model stay inside the value universe
